@@ -162,6 +162,61 @@ fn c05_canary_offset_sign_flipped() {
     core::mem::forget(w);
 }
 
+/// C37: "ignores data arriving for a source after its removal" starts with the removal being
+/// announced: dropping a source controller wrapper (one-way or two-way) sends exactly one
+/// `Dropped` message for its id to the system task, which then calls remove_source (anchor in
+/// units/C37.json); set_usable sends exactly one UsabilityChange carrying the flag.
+#[kani::proof]
+#[kani::unwind(4)]
+fn c37_p_wrapper_drop_announces_removal() {
+    let (tx, mut rx) = crate::verif_common::chan::unbounded_channel();
+    let one_way: bool = kani::any();
+    let id: u64 = kani::any();
+    let flag: bool = kani::any();
+    if one_way {
+        let mut w = OneWaySourceControllerWrapper {
+            id: ClockId(id),
+            inner: Arc::new(Mutex::new(RecOneWay)),
+            messages_for_system: tx,
+        };
+        w.set_usable(flag);
+        drop(w);
+    } else {
+        let mut w = TwoWaySourceControllerWrapper {
+            id: ClockId(id),
+            inner: Arc::new(Mutex::new(RecTwoWay)),
+            last_outgoing_measurement: None,
+            messages_for_system: tx,
+        };
+        w.set_usable(flag);
+        drop(w);
+    }
+    assert!(rx.len() == 2);
+    match rx.try_pop() {
+        Some((ClockId(i), WrapperMessage::UsabilityChange(f))) => assert!(i == id && f == flag),
+        _ => panic!("first message is the usability change"),
+    }
+    match rx.try_pop() {
+        Some((ClockId(i), WrapperMessage::Dropped)) => assert!(i == id),
+        _ => panic!("dropping the wrapper announces the removal"),
+    }
+    kani::cover!(one_way, "one-way reachable");
+    kani::cover!(!one_way, "two-way reachable");
+}
+
+#[kani::proof]
+#[kani::unwind(4)]
+fn c37_canary_drop_is_silent() {
+    let (tx, rx) = crate::verif_common::chan::unbounded_channel();
+    let w = OneWaySourceControllerWrapper {
+        id: ClockId(1),
+        inner: Arc::new(Mutex::new(RecOneWay)),
+        messages_for_system: tx,
+    };
+    drop(w);
+    assert!(rx.len() == 0);
+}
+
 #[cfg(all(kani, test))]
 mod replay {
     use super::*;
